@@ -3403,15 +3403,20 @@ fn frame_plan(barrel: itsgen::gen::Barrel, n: usize, rng: &mut Rng) -> (Vec<itsg
     use itsgen::alpide::{Chip, LaneFrame, FATAL_APES};
     use itsgen::gen::{Barrel, FrameSpec};
     let base_lanes = legal_lane_ids(barrel, rng);
-    let mut fatal_lane: Option<u8> = None; // lane id that went fatal
+    let mut fatal_lanes: Vec<u8> = Vec::new(); // lane ids that went fatal
     // (early: only the first few frames of a plan are emitted, and the frames AFTER the announcement are
     // the ones that show whether the lane set was reduced correctly)
     let fatal_at = if rng.chance(1, 3) { Some(rng.usize_below(n.clamp(1, 4))) } else { None };
+    // (half of the announcements: a second one, one or two frames later, by another lane)
+    let fatal_at2 = match fatal_at {
+        Some(k) if rng.chance(1, 2) => Some(k + 1 + rng.usize_below(2)),
+        _ => None,
+    };
     let mut plan = Vec::new();
     let mut kinds = Vec::new();
     for k in 0..n {
         let bc = rng.below(256) as u8;
-        let mut lanes: Vec<u8> = base_lanes.iter().copied().filter(|l| Some(*l) != fatal_lane).collect();
+        let mut lanes: Vec<u8> = base_lanes.iter().copied().filter(|l| !fatal_lanes.contains(l)).collect();
         let mut kind = "legal";
         let mk_chips = |lane_id: u8, bc: u8, rng: &mut Rng| -> Vec<Chip> {
             match barrel {
@@ -3506,11 +3511,18 @@ fn frame_plan(barrel: itsgen::gen::Barrel, n: usize, rng: &mut Rng) -> (Vec<itsg
                 _ => {}
             }
         }
-        if Some(k) == fatal_at && fatal_lane.is_none() && !lfs.is_empty() {
-            let li = rng.usize_below(lfs.len());
-            lfs[li].fatal_ape = Some(*rng.pick(&FATAL_APES));
-            fatal_lane = Some(lfs[li].lane_id);
-            kind = "lane_announces_fatal";
+        if (Some(k) == fatal_at || Some(k) == fatal_at2) && lfs.len() >= 2 {
+            // one lane - or, in the first announcing frame, two or three lanes at once - announce a fatal state
+            // (at least one lane of the stave stays alive)
+            let many = if Some(k) == fatal_at { *rng.pick(&[1usize, 1, 2, 2, 3]) } else { 1 };
+            let many = many.min(lfs.len() - 1);
+            let mut idx: Vec<usize> = (0..lfs.len()).collect();
+            for _ in 0..many {
+                let li = idx.remove(rng.usize_below(idx.len()));
+                lfs[li].fatal_ape = Some(*rng.pick(&FATAL_APES));
+                fatal_lanes.push(lfs[li].lane_id);
+            }
+            kind = if many > 1 { "lanes_announce_fatal_in_one_frame" } else { "lane_announces_fatal" };
         }
         kinds.push(kind.to_string());
         plan.push(FrameSpec { lanes: lfs, hit_seed: rng.next_u64() });
@@ -3532,8 +3544,9 @@ impl Scenario for Alpide {
         "case = one stave (inner / middle / outer) carrying 1..10 readout frames from the independent ALPIDE encoder: \
          legal frames and frames with exactly one broken rule (lane missing / extra, wrong inner group, one chip's or \
          one lane's bunch counter differs, inner chip ID != lane, two chips on an inner lane, chip ID twice in a lane, \
-         lane without any chip, frame without data words), optionally one lane announcing a fatal APE and silent \
-         afterwards (later frames expect one lane fewer); chips with chosen IDs, bunch counters, readout flags, \
+         lane without any chip, frame without data words), optionally lanes announcing a fatal APE and silent \
+         afterwards (one, two or three lanes in the same frame, in half of the cases another lane a frame or two later; \
+         later frames expect that many lanes fewer); chips with chosen IDs, bunch counters, readout flags, \
          empty-frame and header/trailer forms. The lanes' byte streams (region headers, short/long hits, busy on/off, \
          padding: the pixel-hit content) are cut into 9-byte data words, the lanes' words merged by a seeded \
          interleaving and the frames split over pages by continuation; no-data TDHs precede some frames. Each case is \
